@@ -1,6 +1,7 @@
 (* C07 — Serialized data validates against serialization_schema. *)
 From Coq Require Import List String ZArith Bool.
-From AV Require Import Core.Json Deser.Model Schema.Json Schema.Build Schema.Proofs.
+From AV Require Import Core.Json Deser.Model Deser.Spec Ser.Model Ser.Spec Ser.RoundTrip Ser.RoundTripInd Schema.Json Schema.Build Schema.Proofs
+  Schema.AgreeProofs Schema.SerAgree.
 Import ListNotations.
 
 (* the union schema accepts whatever one of the alternatives' schemas accepts: the serialized form of a union value,
@@ -14,3 +15,31 @@ Proof.
   apply existsb_exists. exists r. split; assumption.
 Qed.
 Print Assumptions C07_union_schema_accepts_each_alternative.
+
+(* THE STATEMENT on the object-free fragment.  For every universe, options, reference set and definitions (those the builder
+   emits for enums), every type built from primitives, List, Tuple, Dict[str, X], Literal, Enum and unions whose alternatives
+   accept disjoint classes of JSON data, and every well-typed value: serialization (the specification `image`, tied to the
+   code by C04) produces JSON data, and on the common semantic domain that data validates, under standard JSON Schema
+   semantics, against the schema the builder generates for the type (tied to serialization_schema by the run: for these types
+   the implementation's serialization schema is structurally the model's schema).
+   Proof: the round-trip theorem (C05) composed with the schema / deserializer agreement (C06). *)
+Theorem C07_object_free_output_validates :
+  forall u (so : sopts) refs ds,
+  (forall e, refs (ename_ e) = true -> def_lookup (ename_ e) ds = Some (literal_schema (get_enum u e))) ->
+  forall n bf ign t v,
+  rt_ty u t = true -> no_obj t = true -> has_type u n t v = true -> canonical u v = true ->
+  obj_free t = true -> wf_con t = true -> con_mergeable u (dopts_of so) refs bf ign t = true -> keys_ok u t = true ->
+  exists j d, image u so (S n) t v = SROk j /\ unembed j = Some d /\
+              (in_domain d = true -> jvalid false ds 0 (build u (dopts_of so) refs bf ign t) d = true).
+Proof. exact serialized_output_validates. Qed.
+Print Assumptions C07_object_free_output_validates.
+
+Theorem C07_hypotheses_satisfiable :
+  let u := mkU [] [[LInt 1; LStr "x"]] in
+  let so := mkSO false false false true false false false false false false (fun s => s) in
+  let t := TColl KList (TUnion [TInt; TMap TStr (TTuple [TEnum 0; TBool]); TNone]) in
+  let v := VList [VInt 3; VDict [(VStr "k", VTuple [VEnum 0 (LStr "x"); VBool true])]; VNone] in
+  rt_ty u t = true /\ no_obj t = true /\ has_type u 1 t v = true /\ canonical u v = true /\ obj_free t = true /\ wf_con t = true
+  /\ con_mergeable u (dopts_of so) (fun _ => false) 0 false t = true /\ keys_ok u t = true.
+Proof. exact serialized_output_validates_ex. Qed.
+Print Assumptions C07_hypotheses_satisfiable.
